@@ -264,15 +264,33 @@ func (s *netSim) packFromPools() {
 			continue
 		}
 		bc := src.n.BC
-		txs := bc.ApplyPolicyToTxSet(bc.GetMemPool().GetVerifiedTransactions())
+		pooled := bc.GetMemPool().GetVerifiedTransactions()
+		txs := bc.ApplyPolicyToTxSet(pooled)
 		if len(txs) == 0 {
 			continue
+		}
+		// "under the block limits": count, cumulative system fee, and (below) the size of the block
+		cfg := bc.GetConfig()
+		var sys int64
+		for _, tx := range txs {
+			sys += tx.SystemFee
+		}
+		if (cfg.MaxTransactionsPerBlock != 0 && len(txs) > int(cfg.MaxTransactionsPerBlock)) || sys > cfg.MaxBlockSystemFee {
+			r.violate(sim.Violatef("c07-packed-over-limit", "c07-packed-over-limit/fee-or-count", "the proposal taken from validator %d's pool (%d pooled) has %d transactions with %d system fee in total; limits: %d transactions, %d system fee", src.idx, len(pooled), len(txs), sys, cfg.MaxTransactionsPerBlock, cfg.MaxBlockSystemFee))
+			return
+		}
+		if len(txs) < len(pooled) {
+			r.out.Probes["proposal_cut_by_block_limits"]++
 		}
 		saveP := r.P
 		r.P = src.n
 		b := r.newBlock(txs, BlockPlan{})
 		r.P = saveP
 		raw := encodeBlock(b)
+		if uint32(len(raw)) > cfg.MaxBlockSize {
+			r.violate(sim.Violatef("c07-packed-over-limit", "c07-packed-over-limit/size", "the block packed from validator %d's pool is %d bytes, MaxBlockSize is %d", src.idx, len(raw), cfg.MaxBlockSize))
+			return
+		}
 		r.out.Probes["block_packed_from_pool"]++
 		r.out.Probes["packed_txs"] += len(txs)
 		for _, v := range s.nodes {
